@@ -64,8 +64,9 @@ func creatorFrame(fr *c19Frame, closure *ssa.Function) *c19Frame {
 // c19Target is one function a func-typed value can denote.
 type c19Target struct {
 	fn     *ssa.Function
-	recv   ssa.Value // bound method value: the receiver ...
-	recvFr *c19Frame // ... and its context
+	obj    *types.Func // extTargets mode: a function outside the package (fn == nil)
+	recv   ssa.Value   // bound method value: the receiver ...
+	recvFr *c19Frame   // ... and its context
 }
 
 // boundMethod: fn is the synthetic wrapper of a bound method value x.M; returns M.
@@ -100,13 +101,25 @@ func (x *c19) funcTargets(v ssa.Value, fr *c19Frame, depth int) ([]c19Target, bo
 				return nil, false
 			}
 			for _, t := range ts {
+				if t.fn == nil {
+					dup := false
+					for _, o := range out {
+						if o.fn == nil && o.obj == t.obj {
+							dup = true
+						}
+					}
+					if !dup {
+						out = append(out, t)
+					}
+					continue
+				}
 				if !seen[t.fn] {
 					seen[t.fn] = true
 					out = append(out, t)
 				}
 			}
 		}
-		return out, len(out) > 0
+		return out, true // (possibly empty: only nil function values)
 	}
 	same := func(vals []ssa.Value, f *c19Frame) ([]c19Target, bool) {
 		frs := make([]*c19Frame, len(vals))
@@ -115,23 +128,39 @@ func (x *c19) funcTargets(v ssa.Value, fr *c19Frame, depth int) ([]c19Target, bo
 		}
 		return union(vals, frs)
 	}
+	ext := func(f *ssa.Function) ([]c19Target, bool) {
+		if x.extTargets && f != nil {
+			if obj, ok := f.Object().(*types.Func); ok {
+				return []c19Target{{obj: obj}}, true
+			}
+		}
+		return nil, false
+	}
 	switch t := v.(type) {
+	case *ssa.Const:
+		if t.IsNil() {
+			return nil, true // the nil function value: no target
+		}
+		return nil, false
 	case *ssa.Function:
 		f := origin(t)
 		if x.inPkg[f] && len(f.Blocks) > 0 {
 			return []c19Target{{fn: f}}, true
 		}
-		return nil, false
+		return ext(f)
 	case *ssa.MakeClosure:
 		f, _ := t.Fn.(*ssa.Function)
 		if m := x.boundMethod(f); m != nil && x.inPkg[m] && len(t.Bindings) == 1 {
 			return []c19Target{{fn: m, recv: t.Bindings[0], recvFr: fr}}, true
 		}
+		if f != nil && strings.HasPrefix(f.Synthetic, "bound method wrapper") {
+			return ext(f) // a method value of another package's type
+		}
 		f = origin(f)
 		if f != nil && x.inPkg[f] && len(f.Blocks) > 0 {
 			return []c19Target{{fn: f}}, true
 		}
-		return nil, false
+		return ext(f)
 	case *ssa.ChangeType:
 		return x.funcTargets(t.X, fr, depth+1)
 	case *ssa.MakeInterface:
@@ -280,6 +309,9 @@ func (x *c19) enter(ci ssa.CallInstruction, fr *c19Frame) []*c19Frame {
 	}
 	var out []*c19Frame
 	for _, t := range ts {
+		if t.fn == nil {
+			continue
+		}
 		f := &c19Frame{call: ci, parent: fr, fn: t.fn}
 		if t.recv != nil {
 			f.args = append([]ssa.Value{t.recv}, cc.Args...)
@@ -752,6 +784,40 @@ func c19InCycle(in ssa.Instruction) bool {
 }
 
 // c19IsDirWrite: a call of dir.Dir.Write, or of a Write(map[string][]byte) error method behind an interface.
+// isDirWrite: c19IsDirWrite, or a call of a function value (local, func-typed
+// field, parameter) all of whose possible values are dir.Dir.Write method values.
+func (x *c19) isDirWrite(ci ssa.CallInstruction, fr *c19Frame) bool {
+	if c19IsDirWrite(ci) {
+		return true
+	}
+	cc := ci.Common()
+	if cc.IsInvoke() || x.busyTargets {
+		return false
+	}
+	if _, isB := cc.Value.(*ssa.Builtin); isB {
+		return false
+	}
+	if sc := staticCallee(ci); sc != nil && !strings.HasPrefix(sc.Synthetic, "bound method wrapper") {
+		return false
+	}
+	sig, ok := cc.Value.Type().Underlying().(*types.Signature)
+	if !ok || sig.Params().Len() != 1 || !c19IsContent(sig.Params().At(0).Type()) {
+		return false
+	}
+	x.busyTargets, x.extTargets = true, true
+	ts, ok := x.funcTargets(cc.Value, fr, 0)
+	x.busyTargets, x.extTargets = false, false
+	if !ok || len(ts) == 0 {
+		return false
+	}
+	for _, t := range ts {
+		if t.fn != nil || t.obj == nil || t.obj.Name() != "Write" || t.obj.Pkg() == nil || !strings.HasSuffix(t.obj.Pkg().Path(), "/concurrency/dir") {
+			return false
+		}
+	}
+	return true
+}
+
 func c19IsDirWrite(ci ssa.CallInstruction) bool {
 	obj := calleeObj(ci)
 	if obj == nil || obj.Name() != "Write" {
@@ -815,7 +881,7 @@ func (x *c19) checkX4() {
 				if c19IsRequestCall(ci) {
 					reqs = append(reqs, c19SinkAt{in, fr})
 				}
-				if c19IsDirWrite(ci) {
+				if x.isDirWrite(ci, fr) {
 					writes = append(writes, c19SinkAt{in, fr})
 				}
 			}
@@ -962,7 +1028,7 @@ func (x *c19) checkX4() {
 			elsewhere := ""
 			for _, fn := range x.fns {
 				allInstrs(fn, func(in ssa.Instruction) {
-					if ci, ok := in.(ssa.CallInstruction); ok && c19IsDirWrite(ci) {
+					if ci, ok := in.(ssa.CallInstruction); ok && x.isDirWrite(ci, nil) {
 						elsewhere = x.name(fn)
 					}
 				})
